@@ -1123,25 +1123,25 @@ func (it c07Item) weight() int {
 }
 
 // c07ItemsFor: all policies for one configuration. The victims of the per-receiver
-// policies are the lowest and the highest operating seat.
-func c07ItemsFor(cfg c07Cfg) []c07Item {
+// policies are the lowest and the highest operating seat. Every item runs with
+// injections; the in-order item and one more (rotating with the configuration number)
+// are differential pairs, i.e. also run without.
+func c07ItemsFor(cfg c07Cfg, ci int) []c07Item {
 	op := cfg.operating()
 	lo, hi := op[0], op[len(op)-1]
 	join := len(cfg.Excluded) > 0
 	items := []c07Item{
 		{Cfg: cfg, Policy: c07Policy{Name: "inorder"}, Diff: true, Join: join},
-		{Cfg: cfg, Policy: c07Policy{Name: "dup"}, Diff: true},
+		{Cfg: cfg, Policy: c07Policy{Name: "dup"}},
+		{Cfg: cfg, Policy: c07Policy{Name: "swap", Victim: lo, Parity: 1}},
+		{Cfg: cfg, Policy: c07Policy{Name: "laggard", Victim: hi}},
 		{Cfg: cfg, Policy: c07Policy{Name: "reverse"}},
-		{Cfg: cfg, Policy: c07Policy{Name: "swap", Victim: lo, Parity: 1}, Diff: true},
 		{Cfg: cfg, Policy: c07Policy{Name: "swap", Victim: lo, Parity: 0}},
+		{Cfg: cfg, Policy: c07Policy{Name: "swap", Victim: hi, Parity: 1}},
+		{Cfg: cfg, Policy: c07Policy{Name: "swap", Victim: hi, Parity: 0}},
 		{Cfg: cfg, Policy: c07Policy{Name: "laggard", Victim: lo}},
 	}
-	if hi != lo {
-		items = append(items,
-			c07Item{Cfg: cfg, Policy: c07Policy{Name: "swap", Victim: hi, Parity: 1}},
-			c07Item{Cfg: cfg, Policy: c07Policy{Name: "swap", Victim: hi, Parity: 0}},
-			c07Item{Cfg: cfg, Policy: c07Policy{Name: "laggard", Victim: hi}, Diff: true})
-	}
+	items[1+ci%3].Diff = true
 	return items
 }
 
@@ -1162,9 +1162,11 @@ func c07Items(thorough bool) []c07Item {
 		}
 		return items
 	}
+	ci := 0
 	for _, nh := range [][2]int{{5, 3}, {3, 2}} {
 		for _, e := range c07ExclusionSets(nh[0], nh[1]) {
-			items = append(items, c07ItemsFor(c07Cfg{N: nh[0], H: nh[1], Excluded: e})...)
+			items = append(items, c07ItemsFor(c07Cfg{N: nh[0], H: nh[1], Excluded: e}, ci)...)
+			ci++
 		}
 	}
 	// one operator holding two seats, one of them excluded: the forged "operating key
@@ -1175,8 +1177,22 @@ func c07Items(thorough bool) []c07Item {
 			c07Item{Cfg: cfg, Policy: c07Policy{Name: "inorder"}, Diff: true, Join: true},
 			c07Item{Cfg: cfg, Policy: c07Policy{Name: "dup"}})
 	}
-	// heaviest first, so that the round-robin over the shards is balanced
-	sort.SliceStable(items, func(a, b int) bool { return items[a].weight() > items[b].weight() })
+	// The in-order items (they cover every exclusion set, with the differential pair and
+	// the joining excluded members) come first, so that a deadline cuts policies, not
+	// exclusion sets; within a class the heaviest first, so that the round-robin over
+	// the shards is balanced.
+	class := func(it c07Item) int {
+		if it.Policy.Name == "inorder" {
+			return 0
+		}
+		return 1
+	}
+	sort.SliceStable(items, func(a, b int) bool {
+		if class(items[a]) != class(items[b]) {
+			return class(items[a]) < class(items[b])
+		}
+		return items[a].weight() > items[b].weight()
+	})
 	return items
 }
 
